@@ -99,6 +99,10 @@ class StdVector(Plugin):
 
     def operator_call(self, unit, n, rd, args):
         op = rd.get('name')
+        if op == 'operator=' and len(args) == 2:
+            cn = self._cn(unit, args[0])
+            if cn is not None and self._cn(unit, args[1]) == cn and self.decls.get(cn) not in self.abstract and self.decls.get(cn) not in self.fixed:
+                return '(*%s_assign(%s, %s))' % (cn, unit.addr_of(args[0]), unit.addr_of(args[1]))
         if op == 'operator[]' and args:
             cn = self._cn(unit, args[0])
             if cn is None: return None
@@ -257,9 +261,18 @@ class StdFunction(Plugin):
 class Syscalls(Plugin):
     """libc system calls -> v_sys_<name> stubs (models/sys_model.h): any legal result"""
     NAMES = {'close', 'read', 'write', 'readv', 'writev', 'fcntl', 'open', 'pipe', 'eventfd', 'epoll_ctl', 'epoll_wait'}
+    def __init__(self, extra=()):
+        self.extra = set(extra)      # further libc functions the spec declares as v_sys_<name> (with a contract)
     def free_call(self, unit, name, rd, args, n):
-        if name in self.NAMES:
+        if name in ('__builtin_va_start', '__builtin_va_end'): return '((void)0)'      # variadic arguments are abstract: only the formatter stub sees them
+        if name == 'vsnprintf' and 'vsnprintf' in self.extra:
+            return 'v_sys_vsnprintf(%s)' % ', '.join(unit.expr(a) for a in args[:3])
+        if name in self.NAMES or name in self.extra:
+            unit.count_call('v_sys_' + name)
             return 'v_sys_%s(%s)' % (name, ', '.join(unit.expr(a) for a in args))
+        return None
+    def type_for(self, name, unit):
+        if name in ('va_list', '__builtin_va_list', '__gnuc_va_list', 'std::va_list'): return 'v_va_list'
         return None
 
 
